@@ -288,19 +288,20 @@ pub struct AStep {
     pub class_c: bool,
 }
 
-pub type ADev<const PW: u8, const GAIN: i8, const N: usize = 256> = Device<ARadio<PW, GAIN>, ATimer, ScriptRng, N, 4>;
+pub type ADev<const PW: u8, const GAIN: i8, const N: usize = 256, const D: usize = 4> = Device<ARadio<PW, GAIN>, ATimer, ScriptRng, N, D>;
 
 /// `N` is the size of the device's radio buffer (256 everywhere except where the buffer size itself
 /// is the subject).
-pub struct ACore<const PW: u8, const GAIN: i8, const N: usize = 256> {
-    pub dev: ADev<PW, GAIN, N>,
+/// `D` is the depth of the device's downlink queue (4 everywhere except where the queue itself matters).
+pub struct ACore<const PW: u8, const GAIN: i8, const N: usize = 256, const D: usize = 4> {
+    pub dev: ADev<PW, GAIN, N, D>,
     pub inner: Rc<RefCell<AInner>>,
     pub rng: ScriptRng,
     pub cfg: DevCfg,
     pub dead: Option<String>,
 }
 
-impl<const PW: u8, const GAIN: i8, const N: usize> ACore<PW, GAIN, N> {
+impl<const PW: u8, const GAIN: i8, const N: usize, const D: usize> ACore<PW, GAIN, N, D> {
     pub fn new(cfg: &DevCfg, class_c: bool) -> Self {
         Self::with_session(cfg, class_c, None)
     }
@@ -336,7 +337,7 @@ impl<const PW: u8, const GAIN: i8, const N: usize> ACore<PW, GAIN, N> {
             }
             Some(given.unwrap_or_else(|| patched_session_cfg(cfg)))
         };
-        let mut dev: ADev<PW, GAIN, N> = Device::new_with_session(make_region(cfg), ARadio(inner.clone()), ATimer(inner.clone()), rng.clone(), session);
+        let mut dev: ADev<PW, GAIN, N, D> = Device::new_with_session(make_region(cfg), ARadio(inner.clone()), ATimer(inner.clone()), rng.clone(), session);
         if class_c {
             dev.enable_class_c();
         }
